@@ -37,9 +37,7 @@ Lemma Rlt_dec_scale (A : Type) x y (X Y : A) :
   (if Rlt_dec (lam * x) (lam * y) then X else Y) = (if Rlt_dec x y then X else Y).
 Proof.
   destruct (Rlt_dec (lam * x) (lam * y)) as [H1|H1]; destruct (Rlt_dec x y) as [H2|H2];
-    try reflexivity; exfalso.
-  - apply lt_scale in H1. contradiction.
-  - apply H1. apply lt_scale. exact H2.
+    try reflexivity; exfalso; destruct (lt_scale x y) as [F G]; auto.
 Qed.
 
 Ltac cases T :=
@@ -116,7 +114,7 @@ Proof.
     unfold Rdiv. rewrite !Rinv_mult.
     set (i1 := / mu). set (i2 := / Rpower x mu). field. lra.
   - rewrite He. rewrite Rpower_scale by assumption.
-    rewrite <- (Rpower_split4 lam mu Hl) at 3. ring.
+    rewrite <- (Rpower_split4 lam mu Hl). ring.
 Qed.
 
 (** (mu, A, eps) are functions of the end point data *)
@@ -126,6 +124,6 @@ Lemma matched_unique f df ddf x mu A eps mu' A' eps' :
 Proof.
   intros [H1 [H2 H3]] [K1 [K2 K3]].
   assert (E : mu' = mu) by (rewrite H1, K1; reflexivity).
-  subst mu'. assert (E2 : A' = A) by (rewrite H2, K2; reflexivity). subst A'.
-  repeat split. rewrite H3, K3. reflexivity.
+  rewrite E in K2, K3. assert (E2 : A' = A) by (rewrite H2, K2; reflexivity).
+  rewrite E2 in K3. repeat split; try assumption. rewrite H3, K3. reflexivity.
 Qed.
